@@ -11,7 +11,7 @@ pub fn prop() -> Prop {
     Prop {
         id: "C15",
         level: "model_checking",
-        rule: "values = 30 (all types, absent, empty string, strings with quote, comma, CR, LF, tab, blanks at both ends, non-ASCII, strings spelled like keywords and numbers, 64-bit and fractional numbers, nested values holding such strings); csv: every row of 1..2 selections (3 selections: quick a slice of 2 700 rows, thorough all 27 000) over the values x 4 sets of selection names (plain; with blank, comma, quote; non-ASCII; two selections sharing a name) and multi-record inputs; rows of 5 selections with a field of 15..8192 characters (quote, comma, line break or non-ASCII at the far end; long nested cells) in each column in turn; 100 and 1000 records in one run; text: every row of 1..2 selections over 24 values with an unambiguous spelling x every option set within 3 deviations of the defaults (thorough: the full product of 7 776 option sets) over items separator(4), string prefix/postfix(3), null/true/false keywords(3,2,2), missing-value keyword(3), --headers(2), escape sequences(5, two of them with a replacement that contains a character another sequence escapes), row separator(3); ~60 numbers in less common forms (17 significant digits, exponent forms, the ends of the 64-bit and double ranges) read from the input, taken out of a list by a function, re-made by parse and passed through a pipe, as csv and text fields that must read back as exactly that number; text with one off-nominal option value at a time (~80: empty strings, values beginning with - or holding = or a quote, several characters, non-ASCII, a blank, for the items and row separators, the string prefix/postfix and the four keywords); nested cells over the position grid (an atom of every kind at every position of every nesting shape of depth <=3, thorough 4) in csv and in text with the quote escaped; non-trivial = the row holds a string with a special character, a nested value, an absent value or a keyword look-alike; distinct by construction",
+        rule: "values = 30 (all types, absent, empty string, strings with quote, comma, CR, LF, tab, blanks at both ends, non-ASCII, strings spelled like keywords and numbers, 64-bit and fractional numbers, nested values holding such strings); csv: every row of 1..2 selections (3 selections: quick a slice of 2 700 rows, thorough all 27 000) over the values x 4 sets of selection names (plain; with blank, comma, quote; non-ASCII; two selections sharing a name) and multi-record inputs; rows of 5 selections with a field of 15..8192 characters (quote, comma, line break or non-ASCII at the far end; long nested cells) in each column in turn; 100 and 1000 records in one run; text: every row of 1..2 selections over 24 values with an unambiguous spelling x every option set within 3 deviations of the defaults (thorough: the full product of 7 776 option sets) over items separator(4), string prefix/postfix(3), null/true/false keywords(3,2,2), missing-value keyword(3), --headers(2), escape sequences(5, two of them with a replacement that contains a character another sequence escapes), row separator(3); ~60 numbers in less common forms (17 significant digits, exponent forms, the ends of the 64-bit and double ranges) read from the input, taken out of a list by a function, re-made by parse and passed through a pipe, as csv and text fields that must read back as exactly that number; text with one off-nominal option value at a time (~80: empty strings, values beginning with - or holding = or a quote, several characters, non-ASCII, a blank, for the items and row separators, the string prefix/postfix and the four keywords); nested cells over the position grid (an atom of every kind at every position of every nesting shape of depth <=3, thorough 4) in csv and in text with the quote escaped; csv rows of 2 selections under four other row separators (CR LF, a bar, two line feeds, semicolon + line feed) with the output options in their short spellings (-o, -r); non-trivial = the row holds a string with a special character, a nested value, an absent value or a keyword look-alike; distinct by construction",
         explanation: "csv output is read back by an independent RFC 4180 reader (skip-initial-space): header = the names in order, N fields per record, each field recovered by type (string content, decimal spelling by exact value, True/False/null, concise JSON re-read by the strict reader and free of insignificant whitespace); text output is compared byte for byte with the rendering the option help pins (prefix + escaped characters + postfix, keywords, separators)",
         assumptions: COMMON_ASSUMPTIONS.to_vec(),
         guards: vec!["nested-cell-from-the-position-grid", "off-nominal-option-value", "number-in-a-less-common-form", "equals-signs-inside-the-selection", "non-ascii-text-before-the-selection-name", "long-fields", "quote-in-string", "comma-in-string", "newline-in-string", "absent-field", "nested-with-special-string", "header-with-special-name", "escape-sequence-applied", "missing-keyword-printed", "text-headers", "three-fields"],
@@ -463,6 +463,56 @@ fn text_part(ctx: &mut Ctx) {
     ctx.level_done(&format!("text:{}-option-sets-within-{kmax}-deviations", sets.len()));
 }
 
+/// csv with another row separator, and the short spellings of the two output options: the records are still one per
+/// separator, the fields unchanged.
+fn csv_row_separators(ctx: &mut Ctx) {
+    let mut todo: Vec<Vec<usize>> = Vec::new();
+    crate::explore::seqs_exact(VALS.len(), 2, |i| todo.push(i.to_vec()));
+    for idx in todo {
+        if !ctx.mine() {
+            continue;
+        }
+        for (si, (sep, style_arg, sep_arg)) in [("\r\n", "--output-style=csv", "--row-seperator=\r\n"), ("|", "-ocsv", "-r|"), ("\n\n", "--output-style=csv", "-r=\n\n"), (";\n", "-o=csv", "--row-seperator=;\n")].iter().enumerate() {
+            if (idx[0] + idx[1] + si) % 2 == 1 {
+                continue;
+            }
+            let args: Vec<String> = vec![style_arg.to_string(), "--select=.c0=a".into(), sep_arg.to_string(), "--select=.c1=b".into()];
+            let input = format!("{}\n{{\"c0\":\"end\"}}\n", record(&idx));
+            let case = Case::owned(args, input.into_bytes());
+            let obs = ctx.run(&case);
+            ctx.case_done();
+            ctx.trace_validated();
+            ctx.guard("csv-with-another-row-separator");
+            ctx.transition(&("csv-rowsep", si, idx[0] % 7));
+            let text = obs.out_str();
+            let mut fail: Option<String> = None;
+            match csv::read(&text, sep) {
+                Ok(recs) if obs.res.is_ok() && recs.len() == 3 && recs.iter().all(|r| r.len() == 2) => {
+                    for j in 0..2 {
+                        let v = VALS[idx[j]].map(json::parse_str);
+                        if let Err(e) = field_ok(&recs[1][j], &v) {
+                            fail = Some(format!("field {j}: {e}"));
+                        }
+                    }
+                    if recs[0][0].text != "a" || recs[0][1].text != "b" || recs[2][0].text != "end" {
+                        fail = Some("header or following record damaged".into());
+                    }
+                }
+                Ok(recs) => fail = Some(format!("{} records ({})", recs.len(), obs.res.short())),
+                Err(e) => fail = Some(e),
+            }
+            match fail {
+                Some(e) => {
+                    ctx.outcome("violation");
+                    ctx.violation("csv-field-not-recovered", &format!("csv with the row separator {sep:?} given as {sep_arg:?} and the style as {style_arg:?}"), &[case.clone()], "header + 2 records of 2 fields, framed by the separator".into(), format!("{e}; stdout {text:?}"));
+                }
+                None => ctx.outcome("csv-ok"),
+            }
+        }
+    }
+    ctx.level_done("csv:other-row-separators-and-short-option-spellings");
+}
+
 /// Nested cells over the position grid: a cell that is an array or object with an atom of every kind (strings and
 /// containers among them) at every position of every nesting shape, in csv (one quoted field that reads back as the
 /// value) and in text with the quote escaped (byte for byte the documented rendering).
@@ -798,6 +848,7 @@ fn run(ctx: &mut Ctx) {
     csv_part(ctx);
     csv_sizes(ctx);
     number_fields(ctx);
+    csv_row_separators(ctx);
     nested_cells_grid(ctx);
     text_part(ctx);
     text_off_nominal(ctx);
